@@ -63,8 +63,11 @@ def run(c, a):
             # each path with every kind of invalid content (run lengths 4,3,2,1, two runs); paths that reach a failure directly also with
             # the failure message at the end of a cause chain of exactly the supported depth
             for deep in ((False, True) if "cause" not in d["path"] else (False,)):
-                for seq in range(NSEQ):
-                    obligs.append({"id": len(obligs) + 1, "kind": "path", "type": d["root"]["method"], "path": d["path"], "deep": deep, "seq": seq})
+                # wrap: the failures above the one under test carry valid messages of their own (only where there is a chain)
+                for wrap in ((False, True) if (deep or "cause" in d["path"]) else (False,)):
+                    for seq in range(NSEQ):
+                        obligs.append({"id": len(obligs) + 1, "kind": "path", "type": d["root"]["method"], "path": d["path"], "deep": deep,
+                                       "wrap": wrap, "seq": seq})
         r = c.tlc("SchemaWalk", "SchemaWalk", "walk_fail.cfg", workers=8, timeout=900, line_cb=on_line,
                   files={"SchemaGen.tla": schema}, name="walk-fail")
         if not r.ok or len(obligs) < 50:
